@@ -13,7 +13,7 @@ CLASSES = {
     "torn": ["zero", "truncate", "tail", "dup_block", "open_construct", "open_construct"],
     "corrupt": ["flip", "bad_utf8", "nul", "bom8", "bom16", "crlf", "mixed_eol", "lone_cr", "ws_only", "binary", "escape_in_string"],
     "grammar": ["del_line", "dup_line", "del_token", "dup_token", "unbalance", "drop_close", "dedent",
-                "swap_ext", "shebang", "del_char", "dup_char", "del_punct", "stray_line", "truncate_line"],
+                "swap_ext", "shebang", "del_char", "dup_char", "del_punct", "stray_line", "truncate_line", "num_mangle", "num_mangle"],
     "blowup": ["nest", "chain", "long_line", "many_funcs", "deep_parens", "deep_list", "long_run", "long_run", "huge_number"],
 }
 KIND_CLASS = {k: c for c, ks in CLASSES.items() for k in ks}
@@ -53,6 +53,8 @@ def draw_fault(t, data: bytes, lang: str, allow_blowup: bool = True, force_blowu
         p = [t.draw(P, "fault.pos")]
     elif kind == "open_construct":
         p = [t.draw(8, "fault.which"), t.draw(3, "fault.where"), t.draw(P, "fault.pos")]
+    elif kind == "num_mangle":
+        p = [t.draw(P, "fault.pos"), t.draw(12, "fault.how")]
     elif kind == "stray_line":
         p = [t.draw(P, "fault.pos"), t.draw(10, "fault.what"), t.draw(2, "fault.boundary")]
     elif kind == "truncate_line":
@@ -157,6 +159,17 @@ def apply(f: dict, data: bytes, lang: str) -> bytes:
             return data
         i = min(len(data) - 1, _pos(data, p[0]))
         return data[:i] + data[i + 1:] if k == "del_char" else data[:i] + data[i:i + 1] + data[i:]
+    if k == "num_mangle":
+        # damage inside one numeric literal: what a lost or doubled keystroke does to a number
+        nums = list(re.finditer(rb"(?<![A-Za-z_0-9.])\d[\d_]*(?:\.\d+)?(?:[eE][+-]?\d+)?", data))
+        if not nums:
+            return data
+        m = nums[(p[0] * len(nums)) >> 20]
+        tok = m.group(0)
+        how = p[1] % 12
+        new = [tok.replace(b".", b"", 1) if b"." in tok else b"0" + tok, b"0" + tok, tok + b"_", tok[:1] + b"_" + tok[1:], tok + b".",
+               tok + b"..5", tok + b"e", tok + b"n", b"0x" + tok + b"g", tok + b"abc", tok + tok + tok + tok, b"0o" + tok + b"9"][how]
+        return data[:m.start()] + new + data[m.end():]
     if k == "del_punct":
         # delete one punctuation character (a dot inside 0.5, a comma, a colon, a quote ...)
         idx = [m.start() for m in re.finditer(rb"[.,:;'\"=+\-*/<>!&|]", data)]
